@@ -628,10 +628,16 @@ func (tm *TileMatrix) UnmarshalJSONFromMap(data interface{}) error {
 		return fmt.Errorf(`data is not a map but a %T`, data)
 	}
 
-	for _, key := range []string{"tileWidth", "tileHeight", "matrixWidth", "matrixHeight"} {
-		// (a negative or too large number would silently wrap around when converted to uint)
-		if size, isNumber := dataMap[key].(float64); isNumber && (size < 0 || size > math.MaxUint32 || size != math.Trunc(size)) {
-			return fmt.Errorf(`%v should be a (not too large) positive integer, not %v`, key, size)
+	if err = checkUnsigned(dataMap, "tileWidth", "tileHeight", "matrixWidth", "matrixHeight"); err != nil {
+		return err
+	}
+	if rawVariableMatrixWidths, isList := dataMap["variableMatrixWidths"].([]interface{}); isList {
+		for _, rawVariableMatrixWidth := range rawVariableMatrixWidths {
+			if variableMatrixWidthMap, isMap := rawVariableMatrixWidth.(map[string]interface{}); isMap {
+				if err = checkUnsigned(variableMatrixWidthMap, "coalesce", "minTileRow", "maxTileRow"); err != nil {
+					return err
+				}
+			}
 		}
 	}
 
@@ -642,6 +648,17 @@ func (tm *TileMatrix) UnmarshalJSONFromMap(data interface{}) error {
 
 	validate := validator.New(validator.WithRequiredStructEnabled())
 	return validate.Struct(tm)
+}
+
+// checkUnsigned checks that the numbers under the given keys can be represented by an unsigned integer
+// (a negative or too large number would silently wrap around when converted to uint)
+func checkUnsigned(dataMap map[string]interface{}, keys ...string) error {
+	for _, key := range keys {
+		if size, isNumber := dataMap[key].(float64); isNumber && (size < 0 || size > math.MaxUint32 || size != math.Trunc(size)) {
+			return fmt.Errorf(`%v should be a (not too large) positive integer, not %v`, key, size)
+		}
+	}
+	return nil
 }
 
 type CornerOfOrigin string
